@@ -2,7 +2,7 @@
    Statements about the reference interpreter Model/Eval.v (proofs in Lemmas/EvalFrame.v, EvalScope.v).
    The interpreter itself is tied to yaql by the correspondence of harness/props/c04.py. *)
 From Coq Require Import List ZArith Bool Arith.
-From YV Require Import Common.Corr Model.Eval Lemmas.EvalFrame Lemmas.EvalScope.
+From YV Require Import Common.Corr Model.Eval Lemmas.EvalFrame Lemmas.EvalScope Lemmas.EvalWf.
 Import ListNotations.
 
 (* Inner bindings never leak outward: whatever is evaluated (any expression, any fuel, any state,
@@ -66,6 +66,27 @@ Theorem C04_lexical :
     lookup_func (heap s) c2 name = Some (body, cap) ->
     eval (S (S f)) s c1 (EUser name (map EConst cs) []) = eval (S (S f)) s c2 (EUser name (map EConst cs) []).
 Proof. exact call_is_lexical. Qed.
+
+(* Well-scopedness is an invariant of evaluation: all context ids in play (current context, parents,
+   captured contexts of closures and of lazy stages, context values, the result) refer to allocated
+   contexts and parents are older than children ([hok], [vok] in Lemmas/EvalWf.v). *)
+Theorem C04_well_scoped :
+  forall f s c e s' r, eval f s c e = (s', r) -> hok (heap s) -> c < length (heap s) ->
+    hok (heap s') /\ (forall v, r = Ok v -> vok (length (heap s')) v).
+Proof. exact eval_wf. Qed.
+
+(* Hence: whatever is evaluated, EVERY context that exists at that moment - the defining scope of
+   every closure created so far, every enclosing scope - resolves every variable name exactly as
+   before.  Bindings made by the evaluated expression (let, with, unpack, lambda parameters, def)
+   are invisible outside it: they never leak outward, and closures keep their defining scope. *)
+Theorem C04_scope_stable :
+  forall f s c e s' r, eval f s c e = (s', r) -> hok (heap s) -> c < length (heap s) ->
+    hok (heap s') /\ forall c0 n, c0 < length (heap s) -> lookup (heap s') c0 n = lookup (heap s) c0 n.
+Proof. exact scope_stable. Qed.
+
+(* the initial state of Statement.evaluate is well-scoped for any plain document *)
+Theorem C04_root_well_scoped : forall d, vok 1 d -> hok (heap (root d)).
+Proof. exact root_hok. Qed.
 
 (* ---- the theorems are about reachable, non-trivial situations ---- *)
 
